@@ -85,6 +85,19 @@ def tsWma (mp : Nat) (l : List Rat) : Out :=
   masked mp l fun l =>
     Out.div (wmaNum l.reverse) ((l.length : Rat) * ((l.length : Rat) + 1) / 2)
 
+/-- from-scratch value of feature `f` on the non-null window contents `l` -/
+def feat (f : Feat) (w : Nat) (mp : Option Nat) (l : List Rat) : Out :=
+  let m := effMp mp w f.minK
+  match f with
+  | .sum => tsSum m l
+  | .mean => tsMean m l
+  | .ewm => tsEwm w m l
+  | .wma => tsWma m l
+  | .std => tsStd m l
+  | .var => tsVar m l
+  | .skew => tsSkew m l
+  | .kurt => tsKurt m l
+
 /-- generalized binomial by its product formula -/
 def gbinom (d : Rat) (k : Nat) : Rat :=
   (List.range k).foldl (fun (acc : Rat) (j : Nat) => acc * (d - (j : Rat)) / ((j : Rat) + 1)) 1
